@@ -241,6 +241,13 @@ def timer_exit_states(ctx: Ctx, fn: Func, arm: ast.Assign, h: str) -> tuple[list
                 if isinstance(t, ast.Name):
                     flags.add(t.id)
 
+    # the future the timer fails: third argument of the arm call
+    fut_arg = arm.value.args[2] if isinstance(arm.value, ast.Call) and len(arm.value.args) >= 3 else None
+    private_future = False
+    if isinstance(fut_arg, ast.Name):
+        defs = [x for x in own_nodes(fn.node) if isinstance(x, (ast.Assign, ast.AnnAssign)) and any(isinstance(t, ast.Name) and t.id == fut_arg.id for t in (x.targets if isinstance(x, ast.Assign) else [x.target]))]
+        private_future = len(defs) == 1 and isinstance(defs[0].value, ast.Call) and norm(defs[0].value.func).endswith("create_future")
+
     def step(n: Node, s: frozenset, label: str) -> frozenset | None:
         if label == "exc" and not eff.node_raises(fn, n):
             return None
@@ -248,7 +255,10 @@ def timer_exit_states(ctx: Ctx, fn: Func, arm: ast.Assign, h: str) -> tuple[list
         if s2 is None:
             return None
         s = s2
-        if n.kind == "handler" and "TimeoutError" in n.handler_type and "armed" in s:
+        if n.kind == "handler" and "TimeoutError" in n.handler_type and "armed" in s and private_future:
+            # only a future created in this very function can be failed with TimeoutError by nothing but the timer;
+            # a shared future (e.g. the helper's readiness future) also receives the connection's own errors, among
+            # them OS-level TimeoutError (== asyncio.TimeoutError): catching that does not mean the timer fired
             s = s | {"fired"}
         if label != "exc":
             if n.ast is arm:
@@ -268,7 +278,7 @@ def timer_exit_states(ctx: Ctx, fn: Func, arm: ast.Assign, h: str) -> tuple[list
 
 def r2(ctx: Ctx) -> None:
     timers = local_timers(ctx)
-    ctx.count("C08.R2", len(timers), 3, "timer handles bound to locals")
+    ctx.count("C08.R2", len(timers), 2, "timer handles bound to locals")
     for fn, arm, h in timers:
         states, g = timer_exit_states(ctx, fn, arm, h)
         bad = [(ex, s) for ex, s in states if "armed" in s and "cancelled" not in s and "fired" not in s]
